@@ -123,7 +123,7 @@ def mkcheck(op, orders, has_x=False, out_bytes=0, delta=0, two_grids=False, gen=
                 mem = W.out('mem', max(out_bytes, 256)); args.append(bv(mem.base))
             args += [bv(s['obj'].base) for s in splines]
             if has_x:
-                x = W.var('x'); W.assume(z3.Not(z3.fpIsNaN(F(x)))); args.append(x)
+                x = W.var('x'); args.append(x)   # any IEEE double, NaN and infinities included
             if extra_scalar:
                 c = W.var('c'); args.append(c)
             outs = explore(ctx, R, W, '@w_' + op, args, op + '/' + variant)
